@@ -33,7 +33,7 @@ MET = ['env:SIM_A==1', '--sim-flag', 'linux', 'posix', 'cpython', 'py3', 'module
 UNMET_A = ['env:SIM_NOT_SET', 'env:SIM_A==2', '--sim-absent', 'win32', 'module:sim_no_such_module']
 UNMET_B = ['env:SIM_A!=1', 'pypy', 'nt', 'env:SIM_OTHER==x', '--sim-absent-2']
 STMT_FORMS = ['assign', 'emit', 'print', 'expr', 'multiline', 'multicall', 'for', 'if', 'with', 'try', 'semi',
-              'semiemit', 'callmod', 'strdirective', 'write']
+              'semiemit', 'callmod', 'strdirective', 'write', 'decoclass', 'decoasync', 'decodef2', 'blankprompt', 'comment']
 ENV = {'environ': {'SIM_A': '1'}, 'argv': ['xdsim', '--sim-flag']}
 
 
@@ -89,7 +89,10 @@ def gen_history(rng, pfx, modname, n_events):
             st['ref'] = rng.choice(helpers)
         if form == 'callmod':
             st['depth'] = rng.randint(1, 3)
-        if rng.random() < 0.35:
+        if form == 'blankprompt':
+            st['n'] = rng.choice([1, 2])
+            st['ps2'] = False
+        if rng.random() < 0.35 and form not in W.NOCODE_FORMS:
             st['inline'] = rand_directive(rng, a, b)
             st['inline_at'] = rng.choice(['first', 'last'])
         # want
@@ -172,6 +175,21 @@ def generate(rng, tier):
             ops.append(op)
         if rng.random() < 0.3 and not defaults:
             ops.append({'op': 'runner', 'target': 'simpkg/m0.py', 'command': 'all', 'verbose': 0})
+        if rng.random() < 0.25:
+            # what is met is decided when the statement is reached: the environment
+            # changes, then the same objects run again
+            env2 = copy.deepcopy(ENV)
+            r2 = rng.random()
+            if r2 < 0.4:
+                env2['environ'] = {} if env.get('environ') else {'SIM_A': '1'}
+            elif r2 < 0.7:
+                env2['argv'] = ['xdsim'] if '--sim-flag' in env.get('argv', []) else ['xdsim', '--sim-flag']
+            else:
+                env2['environ'] = {'SIM_A': '2', 'SIM_NOT_SET': 'now-it-is', 'SIM_OTHER': 'x'}
+                env2['argv'] = ['xdsim', '--sim-absent']
+            again = [dict(o) for o in ops if o['op'] == 'run_obj']
+            ops.append({'op': 'setenv', 'environ': env2['environ'], 'argv': env2['argv']})
+            ops += again[:3]
     return {'profile': ID, 'world': world, 'ops': ops, 'plan': [], 'env': env, 'twin_of': twin_of}
 
 
@@ -307,7 +325,7 @@ def stats(rec, viols):
         spec = idx[e['dtid']][0]
         n_dir = sum(1 for st in spec['steps'] if st['form'] == 'directive')
         n_inl = sum(1 for st in spec['steps'] if st.get('inline'))
-        n_stmt = sum(1 for st in spec['steps'] if st['form'] not in ('directive', 'comment'))
+        n_stmt = sum(1 for st in spec['steps'] if st['form'] not in W.NOCODE_FORMS)
         n_run = len(E.executed_steps)
         s['classes'].append('%s|b%d i%d|run%d of %d' % (E.verdict, min(n_dir, 4), min(n_inl, 4), min(n_run, 6), min(n_stmt, 6)))
         for st in spec['steps']:
